@@ -18,7 +18,7 @@ pub enum MK { // mark kinds
 pub struct Mark { pub off: usize, pub len: usize, pub kind: MK }
 #[derive(Debug, Clone)]
 pub struct Deletable { pub off: usize, pub len: usize, pub err: &'static str, pub tok: &'static str, pub at_mark: Option<usize> /* index into `anchors` giving expected position */ }
-pub struct G<'a> { pub u: Src<'a>, pub out: String, pub marks: Vec<Mark>, pub dels: Vec<Deletable>, pub anchors: Vec<usize>, pub depth: usize, pub feats: Vec<&'static str>, pub in_macro: usize, pub str_regions: Vec<(usize, usize)>, pub last_int: bool, pub max_depth: usize, pub open_parens: usize, pub trunc_points: Vec<(usize, usize)> }
+pub struct G<'a> { pub u: Src<'a>, pub out: String, pub marks: Vec<Mark>, pub dels: Vec<Deletable>, pub anchors: Vec<usize>, pub depth: usize, pub feats: Vec<&'static str>, pub in_macro: usize, pub str_regions: Vec<(usize, usize)>, pub last_int: bool, pub max_depth: usize, pub open_parens: usize, pub open_calls: usize, pub trunc_points: Vec<(usize, usize, usize)> }
 
 const IDENTS: &[&str] = &["a", "b", "x1", "_v", "abc", "var_2", "tbl", "col", "é1", "mylib", "Z"];
 const MNAMES: &[&str] = &["m", "mymac", "util_1", "_m", "doit", "M2"];
@@ -30,7 +30,7 @@ const OPEN_SYM: &[&str] = &["=", "+", "-", "/", "<", ">", "<=", ">=", "^=", "~="
 const WORDS: &[&str] = &["a", "abc", "x1", "some", "text", "v_1", "é", "data", "q2"];
 
 impl<'a> G<'a> {
-    pub fn new(data: &'a [u8]) -> G<'a> { G { u: Src::new(data), out: String::new(), marks: vec![], dels: vec![], anchors: vec![], depth: 0, feats: vec![], in_macro: 0, str_regions: vec![], last_int: false, max_depth: 0, open_parens: 0, trunc_points: vec![] } }
+    pub fn new(data: &'a [u8]) -> G<'a> { G { u: Src::new(data), out: String::new(), marks: vec![], dels: vec![], anchors: vec![], depth: 0, feats: vec![], in_macro: 0, str_regions: vec![], last_int: false, max_depth: 0, open_parens: 0, open_calls: 0, trunc_points: vec![] } }
     fn d_inc(&mut self) { self.depth += 1; if self.depth > self.max_depth { self.max_depth = self.depth; } }
     fn p(&mut self, s: &str) { self.out.push_str(s); }
     // a macro keyword in a random letter case (keywords are case-insensitive)
@@ -46,12 +46,14 @@ impl<'a> G<'a> {
     fn mark(&mut self, s: &str, kind: MK) {
         let off = self.out.len(); self.out.push_str(s); self.marks.push(Mark { off, len: s.len(), kind });
         match kind { MK::Delim("LPAREN", _) | MK::Op("LPAREN") => self.open_parens += 1, MK::Delim("RPAREN", _) | MK::Op("RPAREN") => self.open_parens = self.open_parens.saturating_sub(1), _ => {} }
+        // parentheses that are a call's / definition's own delimiters (each has its own mandatory ')')
+        match kind { MK::Delim("LPAREN", _) => self.open_calls += 1, MK::Delim("RPAREN", _) => self.open_calls = self.open_calls.saturating_sub(1), _ => {} }
     }
     // parentheses of a nested group inside argument text (text for the lexer, but counted by its nesting level)
     fn gopen(&mut self) { self.p("("); self.open_parens += 1; }
     fn gclose(&mut self) { self.p(")"); self.open_parens = self.open_parens.saturating_sub(1); }
     // a point inside open call parentheses at which the input may be cut: every '(' still open there must get its virtual ')'
-    fn tp(&mut self) { if self.open_parens > 0 { self.trunc_points.push((self.out.len(), self.open_parens)); } }
+    fn tp(&mut self) { if self.open_parens > 0 { self.trunc_points.push((self.out.len(), self.open_parens, self.open_calls)); } }
     fn anchor(&mut self) -> usize { self.anchors.push(self.out.len()); self.anchors.len() - 1 }
     // insignificant whitespace/comments (hidden)
     fn ows(&mut self) { match self.u.below(8) { 0 | 1 | 2 | 3 => {} 4 => self.mark(" ", MK::HiddenWs), 5 => self.mark("\n", MK::HiddenWs), 6 => self.mark("  \t", MK::HiddenWs), _ => { self.mark("/*c,=;)*/", MK::HiddenWs); self.feat("comment-in-gap"); } } }
@@ -194,7 +196,21 @@ impl<'a> G<'a> {
                 0 | 1 => { let w = self.pick(WORDS); self.p(w); self.tp(); }
                 2 => { let ws = self.pick(&[" ", " ", "\n", "\t"]); self.p(ws); let w = self.pick(WORDS); self.p(w); self.tp(); }
                 3 => { match self.u.below(8) { 0 => { self.feat("macro-comment-in-arg"); self.p("%*c,=);"); } 1 => { self.feat("literal-percent"); let w = self.pick(&["50% ", "% ", "a%\n"]); self.p(w); } _ => self.mvar(true) } }
-                4 => { self.feat("nested-parens"); self.gopen(); let n = 1 + self.u.below(4);
+                4 => self.paren_group(),
+                5 if self.u.coin(1, 8) => { self.str_with_stat(); self.p(" "); }
+                5 => { self.feat("quoted-in-arg"); let q = self.u.coin(1, 2); self.p(if q { "'" } else { "\"" }); self.p("s"); self.tp(); if !q && self.u.coin(1, 3) { self.mvar(true); self.tp(); } self.mark(",", MK::Masked); if self.u.coin(1, 2) { self.p("("); } self.mark(")", MK::Masked); self.mark("=", MK::Masked); if self.u.coin(1, 4) { self.p("(("); } self.p(if q { "' " } else { "\" " }); }
+                6 => { self.d_inc(); self.user_call(2); self.depth -= 1; self.p(" "); let w = self.pick(WORDS); self.p(w); }
+                7 => { self.d_inc(); self.builtin_call(2); self.depth -= 1; }
+                8 => { self.p("="); let w = self.pick(WORDS); self.p(w); } // '=' inside value text is just text (after first token / when not a name)
+                9 => { let s = self.pick(&["1", "42", "3.5"]); self.p(s); }
+                10 => { if self.u.coin(1, 2) { self.p("/"); let w = self.pick(WORDS); self.p(w); } else { self.feat("comment-in-value"); let w = self.pick(WORDS); self.p(w); self.mark("/*c,=;)(*/", MK::HiddenWs); let w = self.pick(WORDS); self.p(w); self.tp(); } }
+                _ => { self.d_inc(); self.stat_in_value(); self.depth -= 1; }
+            }
+        }
+    }
+    // a balanced parenthesised group inside a value: commas, '=' and ';' in it are text, also after sub-tokens
+    fn paren_group(&mut self) {
+        self.feat("nested-parens"); self.gopen(); let n = 1 + self.u.below(4);
                     for _ in 0..n { match self.u.below(8) {
                         0 => { let w = self.pick(WORDS); self.p(w); self.tp(); }
                         1 => { self.feat("masked-after-subtoken"); self.mvar(true); }
@@ -206,15 +222,21 @@ impl<'a> G<'a> {
                         _ => { self.p("z"); self.tp(); }
                     }
                     match self.u.below(4) { 0 => self.mark(",", MK::Masked), 1 => self.mark("=", MK::Masked), 2 => self.mark(";", MK::Masked), _ => {} } }
-                    self.gclose(); }
-                5 if self.u.coin(1, 8) => { self.str_with_stat(); self.p(" "); }
-                5 => { self.feat("quoted-in-arg"); let q = self.u.coin(1, 2); self.p(if q { "'" } else { "\"" }); self.p("s"); self.tp(); if !q && self.u.coin(1, 3) { self.mvar(true); self.tp(); } self.mark(",", MK::Masked); if self.u.coin(1, 2) { self.p("("); } self.mark(")", MK::Masked); self.mark("=", MK::Masked); if self.u.coin(1, 4) { self.p("(("); } self.p(if q { "' " } else { "\" " }); }
-                6 => { self.d_inc(); self.user_call(2); self.depth -= 1; self.p(" "); let w = self.pick(WORDS); self.p(w); }
-                7 => { self.d_inc(); self.builtin_call(2); self.depth -= 1; }
-                8 => { self.p("="); let w = self.pick(WORDS); self.p(w); } // '=' inside value text is just text (after first token / when not a name)
-                9 => { let s = self.pick(&["1", "42", "3.5"]); self.p(s); }
-                10 => { if self.u.coin(1, 2) { self.p("/"); let w = self.pick(WORDS); self.p(w); } else { self.feat("comment-in-value"); let w = self.pick(WORDS); self.p(w); self.mark("/*c,=;)(*/", MK::HiddenWs); let w = self.pick(WORDS); self.p(w); self.tp(); } }
-                _ => { self.d_inc(); self.stat_in_value(); self.depth -= 1; }
+                    self.gclose();
+    }
+    // an argument of a built-in: words, macro variables, strings, parenthesised groups, nested calls (never a top-level comma)
+    fn bvalue(&mut self) {
+        if self.depth > 5 || self.u.coin(1, 2) { return self.simple_value(); }
+        self.feat("rich-builtin-arg");
+        let n = 1 + self.u.below(3);
+        for _ in 0..n {
+            match self.u.below(8) {
+                0 | 1 => { let w = self.pick(WORDS); self.p(w); self.tp(); }
+                2 => self.mvar(true),
+                3 | 4 => self.paren_group(),
+                5 => { let q = self.u.coin(1, 2); self.p(if q { "'" } else { "\"" }); self.p("|"); self.mark(",", MK::Masked); self.mark(")", MK::Masked); self.p(if q { "' " } else { "\" " }); }
+                6 => { self.d_inc(); self.builtin_call(2); self.depth -= 1; }
+                _ => { self.d_inc(); self.user_call(2); self.depth -= 1; if !self.out.ends_with(')') { self.p(" w"); } }
             }
         }
     }
@@ -244,10 +266,10 @@ impl<'a> G<'a> {
         match if self.depth > 5 { 0 } else { self.u.below(12) } {
             0 => { self.pk("%eval"); self.ows(); self.del_mark("(", "LPAREN", "MissingExpectedLParen", false); self.ows(); self.eval_expr(false, false); self.ows_after_expr(); self.mark(")", MK::Delim("RPAREN", false)); }
             1 => { self.feat("sysevalf"); self.pk("%sysevalf"); self.ows(); self.del_mark("(", "LPAREN", "MissingExpectedLParen", false); self.ows(); self.eval_expr(true, true); if self.u.coin(1, 3) { self.mark(",", MK::Delim("COMMA", false)); self.ows(); self.p("boolean"); } self.mark(")", MK::Delim("RPAREN", false)); }
-            2 => { self.feat("scan"); let nm = self.pick(&["%scan", "%qscan", "%SCAN", "%kscan", "%qkscan", "%QKScan"]); self.p(nm); self.ows(); self.del_mark("(", "LPAREN", "MissingExpectedLParen", false); self.ows(); self.simple_value(); let close_anchor_needed = self.out.len(); let _ = close_anchor_needed; let di = self.dels.len(); self.del_mark(",", "COMMA", "MissingExpectedComma", false); self.ows(); self.eval_expr(false, true); if self.u.coin(1, 2) { self.mark(",", MK::Delim("COMMA", false)); self.ows(); self.p("|"); self.mark("(", MK::Masked); self.p(" "); self.mark(")", MK::Masked); self.dels.remove(di); } else { let a = self.anchor(); self.dels[di].at_mark = Some(a); } self.mark(")", MK::Delim("RPAREN", false)); }
-            3 => { self.feat("substr"); let nm = self.pick(&["%substr", "%qsubstr", "%ksubstr", "%qksubstr", "%SUBSTR", "%QKsubstr"]); self.p(nm); self.ows(); self.del_mark("(", "LPAREN", "MissingExpectedLParen", false); self.ows(); self.simple_value(); let di = self.dels.len(); self.del_mark(",", "COMMA", "MissingExpectedComma", false); self.ows(); self.eval_expr(false, true); if self.u.coin(1, 2) { self.mark(",", MK::Delim("COMMA", false)); self.ows(); self.eval_expr(false, true); self.dels.remove(di); } else { let a = self.anchor(); self.dels[di].at_mark = Some(a); } self.mark(")", MK::Delim("RPAREN", false)); }
+            2 => { self.feat("scan"); let nm = self.pick(&["%scan", "%qscan", "%SCAN", "%kscan", "%qkscan", "%QKScan"]); self.p(nm); self.ows(); self.del_mark("(", "LPAREN", "MissingExpectedLParen", false); self.ows(); self.bvalue(); let close_anchor_needed = self.out.len(); let _ = close_anchor_needed; let di = self.dels.len(); self.del_mark(",", "COMMA", "MissingExpectedComma", false); self.ows(); self.eval_expr(false, true); if self.u.coin(1, 2) { self.mark(",", MK::Delim("COMMA", false)); self.ows(); if self.u.coin(1, 2) { self.p("|"); self.mark("(", MK::Masked); self.p(" "); self.mark(")", MK::Masked); } else { self.bvalue(); } if self.u.coin(1, 2) { self.feat("scan-modifiers"); self.mark(",", MK::Delim("COMMA", false)); self.ows(); if self.u.coin(1, 2) { self.p("m"); } else { self.bvalue(); } } self.dels.remove(di); } else { let a = self.anchor(); self.dels[di].at_mark = Some(a); } self.mark(")", MK::Delim("RPAREN", false)); }
+            3 => { self.feat("substr"); let nm = self.pick(&["%substr", "%qsubstr", "%ksubstr", "%qksubstr", "%SUBSTR", "%QKsubstr"]); self.p(nm); self.ows(); self.del_mark("(", "LPAREN", "MissingExpectedLParen", false); self.ows(); self.bvalue(); let di = self.dels.len(); self.del_mark(",", "COMMA", "MissingExpectedComma", false); self.ows(); self.eval_expr(false, true); if self.u.coin(1, 2) { self.mark(",", MK::Delim("COMMA", false)); self.ows(); self.eval_expr(false, true); self.dels.remove(di); } else { let a = self.anchor(); self.dels[di].at_mark = Some(a); } self.mark(")", MK::Delim("RPAREN", false)); }
             4 => { self.feat("one-arg-masking"); let nm = self.pick(&["%upcase", "%length", "%index", "%quote", "%bquote", "%nrbquote", "%superq", "%unquote", "%symexist", "%sysget", "%qupcase", "%qlowcase", "%nrquote", "%kupcase", "%klength", "%kindex", "%qkupcase", "%qklowcase", "%sysmexecname", "%sysprod", "%symglobl", "%symlocal", "%sysmacexec", "%sysmacexist", "%UPCASE", "%Length"]); self.p(nm); self.ows(); self.del_mark("(", "LPAREN", "MissingExpectedLParen", false); self.ows(); self.simple_value(); if self.u.coin(1, 2) { self.mark(",", MK::Masked); self.p("t"); } self.mark(")", MK::Delim("RPAREN", false)); }
-            5 => { self.feat("multi-arg-builtin"); let nm = self.pick(&["%cmpres", "%left", "%trim", "%lowcase", "%qtrim", "%datatyp", "%qcmpres", "%kcmpres", "%qkcmpres", "%qleft", "%kleft", "%qkleft", "%ktrim", "%qktrim", "%klowcase", "%Trim"]); self.p(nm); self.ows(); self.del_mark("(", "LPAREN", "MissingExpectedLParen", false); self.ows(); self.simple_value(); let extra = self.u.below(3); for _ in 0..extra { self.mark(",", MK::Delim("COMMA", false)); self.ows(); self.simple_value(); } self.mark(")", MK::Delim("RPAREN", false)); }
+            5 => { self.feat("multi-arg-builtin"); let nm = self.pick(&["%cmpres", "%left", "%trim", "%lowcase", "%qtrim", "%datatyp", "%qcmpres", "%kcmpres", "%qkcmpres", "%qleft", "%kleft", "%qkleft", "%ktrim", "%qktrim", "%klowcase", "%Trim"]); self.p(nm); self.ows(); self.del_mark("(", "LPAREN", "MissingExpectedLParen", false); self.ows(); self.bvalue(); let extra = self.u.below(3); for _ in 0..extra { self.mark(",", MK::Delim("COMMA", false)); self.ows(); self.bvalue(); } self.mark(")", MK::Delim("RPAREN", false)); }
             6 => { self.feat("sysfunc"); let nm = self.pick(&["%sysfunc", "%qsysfunc", "%SysFunc"]); self.p(nm); self.ows(); self.del_mark("(", "LPAREN", "MissingExpectedLParen", false); self.ows(); let f = self.pick(&["cats", "putn", "max", "today", "substr"]); self.p(f); self.ows(); self.del_mark("(", "LPAREN", "MissingExpectedLParen", false); self.ows(); let n = self.u.below(3); for i in 0..n { if i > 0 { self.mark(",", MK::Delim("COMMA", false)); self.ows(); } self.eval_expr(true, true); } self.mark(")", MK::Delim("RPAREN", false)); self.ows(); if self.u.coin(1, 3) { self.mark(",", MK::Delim("COMMA", false)); self.ows(); self.p("best12."); } self.mark(")", MK::Delim("RPAREN", false)); }
             7 | 8 => { self.str_call(); }
             9 => { self.feat("verify-named"); let nm = self.pick(&["%verify", "%kverify", "%verify", "%VERIFY", "%compstor", "%validchs"]); self.p(nm); self.ows(); self.del_mark("(", "LPAREN", "MissingExpectedLParen", false); self.ows(); if self.u.coin(1, 3) { self.feat("builtin-named-arg"); self.p("pathname"); self.ows(); self.mark("=", MK::Delim("ASSIGN", false)); self.ows(); } self.simple_value(); self.mark(",", MK::Delim("COMMA", false)); self.ows(); self.simple_value(); self.mark(")", MK::Delim("RPAREN", false)); }
